@@ -70,6 +70,28 @@ template <typename T> inline std::string shp(const T& r) {
     else return items(r);
 }
 
+// result of shape_broadcast_to, maybe<tuple<shape, free axes>>: `nothing` | `<shape>/<free axes as 0,1 list>`
+// (a None source, the shape of a number, has the free-axes entry None: every axis is free)
+template <typename T> inline std::string sbt(const T& r) {
+    if constexpr (is_failed_v<T> || meta::is_fail_v<T>) return "nothing";
+    else if constexpr (meta::is_maybe_v<T>) { if (!nm::has_value(r)) return "nothing"; return sbt(*r); }
+    else {
+        const auto& s = nm::get<0>(r);
+        const auto& f = nm::get<1>(r);
+        std::string o = shp(s) + "/";
+        if constexpr (nm::is_none_v<meta::remove_cvref_t<decltype(f)>>) {
+            size_t n;
+            if constexpr (nm::is_none_v<meta::remove_cvref_t<decltype(s)>>) n = 0; else n = (size_t)nm::len(s);
+            std::string l; for (size_t i=0;i<n;i++) { if (i) l += ","; l += "1"; }
+            return o + (n ? l : std::string("[]"));
+        } else {
+            auto n = (size_t)nm::len(f);
+            std::string l; for (size_t i=0;i<n;i++) { if (i) l += ","; l += (nm::at(f,i) ? "1" : "0"); }
+            return o + (n ? l : std::string("[]"));
+        }
+    }
+}
+
 // array / view: `nothing` | `shape=<list>;data=<elements>`
 template <typename T> inline std::string arr(const T& v) {
     if constexpr (is_failed_v<T> || meta::is_fail_v<T>) return "nothing";
@@ -142,6 +164,7 @@ struct out_t {
     std::string done() { for (auto& e : proto::g_events) e = 0; return s; }
 };
 #define K6_SHP(o, name, expr) (o).term(name, [&]{ return (expr); }, [](const auto& r){ return k6::shp(r); })
+#define K6_SBT(o, name, expr) (o).term(name, [&]{ return (expr); }, [](const auto& r){ return k6::sbt(r); })
 #define K6_ARR(o, name, expr) (o).term(name, [&]{ return (expr); }, [](const auto& r){ return k6::arr(r); })
 #define K6_ARRS(o, name, expr) (o).term(name, [&]{ return (expr); }, [](const auto& r){ return k6::arrs(r); })
 } // namespace k6
